@@ -2042,6 +2042,10 @@ impl<'a> StatisticsConverter<'a> {
                 continue;
             };
             let page_locations = offset_index.page_locations();
+            // a column chunk of an empty row group has no pages
+            let Some(last_page_location) = page_locations.last() else {
+                continue;
+            };
 
             let row_count_per_page = page_locations
                 .windows(2)
@@ -2050,8 +2054,7 @@ impl<'a> StatisticsConverter<'a> {
             // append the last page row count
             let num_rows_in_row_group = &row_group_metadatas[*rg_idx].num_rows();
             let row_count_per_page = row_count_per_page.chain(std::iter::once(Some(
-                *num_rows_in_row_group as u64
-                    - page_locations.last().unwrap().first_row_index as u64,
+                *num_rows_in_row_group as u64 - last_page_location.first_row_index as u64,
             )));
 
             row_counts.extend(row_count_per_page.clone().map(|x| x.unwrap_or(0)));
